@@ -1,6 +1,16 @@
 """What each registered check claims (source of MANIFEST.json; see tools/gen_manifest.py)."""
 
 CLAIMS = {
+    "C06": {
+        "text": "UnionCal's predicates are evaluated symbolically and put in negation normal form: is_weekday = forall members, is_holiday = exists "
+                "member, is_settlement = true without settlement calendars else forall settlement calendars is_bus_day (each over its own field); "
+                "NamedCal and every CalType variant forward to the wrapped calendar; Cal's leaves are the mask/holiday membership tests; try_new's three "
+                "paths (lower-case before split, >2 parts Err, part 0 -> calendars, part 1 -> settlement) and parse_cals (one lookup per piece, ? "
+                "propagation); the behavioural equalities quantify over 1970-01-01..2200-12-31 and require both agreements on the same date.",
+        "design_ref": "DESIGN.md §4 C06",
+        "note": "Not decided: nothing about concrete dates (C07). Trusted: lib/cel.py quantifier model; cal_date_range being calendar independent is checked.",
+        "technique": "symbolic evaluation with quantifier normal forms (NNF); path flattening; delegation tables",
+    },
     "C04": {
         "text": "Each adjustment rule's body is summarised symbolically (while loops as iterate(init, condition, step)) and must be exactly the textbook "
                 "idiom: one-day linear search in its direction on is_bus_day; the settlement search with the same direction in all three places; the "
